@@ -7,9 +7,12 @@ C29 driver.  Ops:
   canon <item>*        item = "L" (a text chunk) | "R"<hex digits of the id>
                        answer: the canonical index of every R item, in order, separated by ","
   sort <hexpath>*      answer: the paths in the order of `FileLister::addFiles` (sortFiles), hex, separated by " "
-  files <late> <arg>*  arg = hexpath(","hexpath)* : the sorted listing of one command-line argument as given
-                       late = hex extension list ("-" none) of markup files processed last
-                       answer: `runFiles` order after duplicate removal and markup-last, hex paths
+  trees <extra> <late> <arg>*
+                       arg = "F"hexpath (a file) | "D"hexpath":"hexrel,… (a directory and every file below it, in the
+                       enumeration order of the file system) | "N"hexpath (does not exist)
+                       extra / late = hex extension lists ("-" none): markup extensions of the library / those processed last
+                       answer: `Determinism.runFiles` evaluated on the trees (traversal, acceptance, sort per argument,
+                       duplicate removal, markup last), hex paths
 -/
 namespace Driver.C29
 
@@ -28,6 +31,39 @@ def refsOf : List Item → List Nat
   | .lit _ :: r => refsOf r
   | .ref i :: r => i :: refsOf r
 
+def splitSlash : Str → Str → List Str
+  | acc, [] => [acc.reverse]
+  | acc, c :: r => if c == '/' then acc.reverse :: splitSlash [] r else splitSlash (c :: acc) r
+
+def isDirNamed (c : Str) : Tree → Bool
+  | .dir n _ => n == c
+  | .file _ => false
+
+/-- add the file with the path components `comps` below the directory node `t` (entries keep their arrival order) -/
+partial def insertPath (t : Tree) (comps : List Str) : Tree :=
+  match t, comps with
+  | .dir n ch, [f] => .dir n (ch ++ [.file f])
+  | .dir n ch, c :: rest =>
+    if ch.any (isDirNamed c) then .dir n (ch.map (fun x => if isDirNamed c x then insertPath x rest else x))
+    else .dir n (ch ++ [insertPath (.dir c []) rest])
+  | t, _ => t
+
+/-- "F"hexpath = a regular file; "D"hexpath":"hexrel(","hexrel)* = a directory with the files below it as enumerated -/
+def pArg (s : String) : Option (Str × Option Tree) :=
+  if s.startsWith "F" then (fromHex (s.drop 1).toString).map (fun p => (p, some (.file p)))
+  else if s.startsWith "D" then
+    match (s.drop 1).toString.splitOn ":" with
+    | [p, rels] => do
+      let p ← fromHex p
+      let rels ← if rels == "" then some [] else (rels.splitOn ",").mapM fromHex
+      pure (p, some (rels.foldl (fun t r => insertPath t (splitSlash [] r)) (.dir p [])))
+    | _ => none
+  else if s.startsWith "N" then (fromHex (s.drop 1).toString).map (fun p => (p, none))
+  else none
+
+def pExts (s : String) : Option (List Str) :=
+  if s == "-" then some [] else (s.splitOn ",").mapM fromHex
+
 def step (line : String) : String :=
   match fields line with
   | "canon" :: items =>
@@ -38,15 +74,14 @@ def step (line : String) : String :=
     match paths.mapM fromHex with
     | some ps => " ".intercalate ((sortFiles (ps.map (fun p => (p, Lang.none)))).map (fun x => toHex x.1))
     | none => "bad-op"
-  | "files" :: late :: args =>
-    let parsed := args.mapM (fun a => (a.splitOn ",").mapM fromHex)
-    match parsed, fromHex late with
-    | some ls, some lateExt =>
-      -- every argument arrives as an enumeration of its files; the model sorts it, concatenates, erases duplicates
-      let listed := ls.flatMap (fun l => sortFiles (l.map (fun p => (p, Lang.none))))
-      let isLate := fun (p : Str) => !lateExt.isEmpty && getFilenameExtension p == lateExt
-      " ".intercalate ((markupLast isLate (dedupPaths listed)).map (fun x => toHex x.1))
-    | _, _ => "bad-op"
+  | "trees" :: extra :: late :: args =>
+    -- `runFiles` itself on the directory trees: traversal, acceptance by extension (library markup extensions = extra),
+    -- sort per argument, duplicate removal, markup processed after code last
+    match pExts extra, pExts late, args.mapM pArg with
+    | some extra, some lateExts, some as =>
+      let isLate := fun (p : Str) => lateExts.contains (getFilenameExtension p)
+      " ".intercalate ((runFiles (fun _ _ => false) (acceptFile extra) isLate as).map (fun x => toHex x.1))
+    | _, _, _ => "bad-op"
   | _ => "bad-op"
 
 end Driver.C29
